@@ -70,7 +70,7 @@ def run(ctx):
     ctx.model_check("MCConc", CONC_CFG % dict(get="W", inc="atomic", recheck="FALSE"), name="MCConc-defect-norecheck", expect_violation="OneSeries")
     # (1) linearisability of recorded concurrent LRU histories against LRU.tla
     tr = os.path.join(ctx.work, "conc-lru.ndjson")
-    i1 = ctx.run_vh(["conc-lru", "-out", tr, "-histories", 400 if q else 4000])
+    i1 = ctx.run_vh(["conc-lru", "-out", tr, "-histories", 400 if q else 4000, "-hot", 4000 if q else 40000])
     hs = split_histories(tr)
     nshards = 8
     bad = []
